@@ -65,7 +65,7 @@ func init() {
 						if !ok {
 							return true
 						}
-						construct := ord.next("result of " + f.Name())
+						construct := ord.next("result of " + shortName(f))
 						if bu.Lit != nil {
 							construct = "literal: " + construct
 						}
